@@ -227,6 +227,31 @@ def build_odd_stream(rng, n_frames):
     return st
 
 
+def build_full_frame_stream(rng):
+    """a packet of undefined-line Teletext units (legal: EN 301 775 4.5.2) which, together with the lines of the
+    intact frame after it (no frame boundary is recognisable between the two), fills dx->sliced[64] exactly,
+    followed by intact one-packet frames.  The first packet counts as arbitrary input: of the intact frames at
+    most the first may be lost."""
+    st = Stream("pes")
+    pts = rng.randrange(1 << 33)
+    prev_last, specs = None, []
+    for _ in range(rng.randrange(4, 7)):
+        lines = du.gen_frame_lines(rng, True, prev_last)
+        prev_last = du.frame_line(*lines[-1][:3])
+        specs.append(lines)
+    n = 64 - len(specs[0])
+    units = [du.data_unit("ttx", 0, 0, [rng.randrange(256) | 0x10 for _ in range(42)]) for _ in range(n)]
+    st.bytes += du.pes_packet(pts, units)
+    for lines in specs:
+        pts = (pts + 3600) & ((1 << 33) - 1)
+        st.starts.append(len(st.bytes))
+        st.frames.append(du.expect_frame(pts, lines))
+        st.bytes += du.pes_packet(pts, [du.data_unit(*l) for l in lines])
+    st.damage = (-1, 0, st.starts[0])      # frame 0 may be lost (it is merged), frames 1.. must arrive
+    st.damage_kind = "full_frame"
+    return st
+
+
 def foreign_horizon(b, lo, hi):
     """largest offset a start-code-like pattern touching b[lo:hi] can make the demux skip to"""
     h = hi
@@ -333,21 +358,20 @@ class C07(verif.Spec):
                     "after the overflow packet are proved for the model (for the repaired and the unrepaired shape of "
                     "the two fixed statements alike; the two old defects are proved counterexamples for the unrepaired "
                     "shape). TS path: invariant, safety/progress and split invariance proved in full. Coroutine "
-                    "interface: progress (no livelock) for every context, and cor_equals_feed (one drained buffer after "
-                    "any feed history, repaired source) proved by a second refinement; successive drained buffers are "
-                    "an open statement. Joined with C06 (Props/C07Cor.lean): parser equivalence EnParse.pesStream vs "
+                    "interface: progress (no livelock) for every context, and cor_equals_feed (any sequence of drained "
+                    "buffers after any feed history, repaired source) proved by a second refinement. Joined with C06 (Props/C07Cor.lean): parser equivalence EnParse.pesStream vs "
                     "the demultiplexer and the round trip from the multiplexer model for every feed partition and "
                     "through the coroutine, for frames of defined lines; header stage rejects PES_packet_length < 178 "
-                    "and the lookahead encoding of the payload state is an invariant. Frames 'as sent' after arbitrary "
-                    "damage (resync_full) stay with the oracle.")
+                    "and the lookahead encoding of the payload state is an invariant; resync on an intact stream from any "
+                    "context at a packet boundary. That the scan reaches such a boundary after arbitrary damage stays with "
+                    "the oracle. Known finding C07-full-frame (a frame of exactly 64 lines is dropped with its successor).")
     assumptions = ["the frame callback returns TRUE", "coroutine callers pass max_lines >= 64",
                    "feed buffers are shorter than 2^32 bytes (unsigned int arithmetic does not wrap)",
                    "all bytes are < 256 (the model is over Nat lists)"]
     trusted_base = ["harness/demux_harness.c + lean/Driver/Demux.lean (op-by-op correspondence incl. resume state)",
                     "lib/demux_util.py: my transcription of EN 300 472 / EN 301 775 / ISO 13818-1 sender side",
                     "constants PES_BUF_SIZE etc. hard-coded in the model, cross-checked by the `consts` op every run"]
-    open_statements = ["resync_full",
-                       "cor_equals_feed_composed_full (Props/C07Cor.lean): successive buffers drained through vbi_dvb_demux_cor = the same buffers fed (proved: one drained buffer after any feed history = C07.cor_equals_feed_full, theorem C07Cor.cor_equals_feed; oracle: cor vs feed on every case)",
+    open_statements = ["resync_full (Props/C07.lean): FALSE as written - C07Cor.resync_full_counterexample (finding C07-full-frame: a frame of exactly 64 lines costs two frames); proved instead: C07Cor.resync_on_intact_stream (from ANY context at a packet boundary with room in the frame buffer, an intact stream of separable frames loses at most its first frame and is preceded by at most one stale frame) and resync_from_frame_start; still open: that after arbitrary damage the start code scan arrives at a packet boundary of the intact stream (oracle: damaged streams)",
                        "mux_demux_roundtrip_model_full (Props/C07.lean): proved for frames whose lines all have defined line numbers (C07Cor.mux_demux_roundtrip_model, C06Join.mux_demux_roundtrip_lib); open for frames that also carry undefined-line units (C06Join.mux_demux_roundtrip_undef_full)"]
 
     # ---------------------------------------------------------------- generation
@@ -436,6 +460,8 @@ class C07(verif.Spec):
             add("pes_crafted", st)
         for i in range(N // 4):
             add("pes_undef", build_undef_stream(rng, rng.randrange(3, 8)))
+        for i in range(max(3, N // 20)):
+            add("pes_full_frame", build_full_frame_stream(rng))
         for i in range(N // 2):
             # valid-header packets with an arbitrary PES_packet_length between intact packets
             st = build_odd_stream(rng, rng.randrange(7, 10))
@@ -548,7 +574,7 @@ class C07(verif.Spec):
         for op, o in zip(case, out):
             w = op.split()
             if w[0] in ("new", "newcor"):
-                cur = {"cor": w[0] == "newcor", "frames": [], "st": None, "bad": None, "null": o != "ok"}
+                cur = {"cor": w[0] == "newcor", "frames": [], "st": None, "sts": [], "bad": None, "null": o != "ok"}
                 segs.append(cur)
                 continue
             if cur is None or cur["null"]:
@@ -567,6 +593,7 @@ class C07(verif.Spec):
                     cur["frames"] += fr
             elif w[0] == "st":
                 cur["st"] = o
+                cur["sts"].append((o, len(cur["frames"])))
             elif w[0] == "reset":
                 cur["frames"].append("<reset>")
         return segs
@@ -586,6 +613,12 @@ class C07(verif.Spec):
         if meta is None:
             # replay / corpus file: partition independence only, when the case has the variant shape
             feeds = [s for s in segs if not s["cor"] and not s["null"]]
+            for s in feeds:
+                # a full frame buffer (64 lines, not at a frame start) seen between feed calls must come out as a frame
+                for (o, nfr) in s["sts"][:-1]:
+                    if " n=64 " in o and " nf=0 " in o and not any(" n=64 " in (f + " ") for f in s["frames"][nfr:]):
+                        return ("full frame: a frame that fills the 64 line buffer exactly is never delivered and the intact "
+                                "frame after it is lost too (line_address reports the overflow before it tests for a new frame)")
             if any(s["st"] and " n=64 " in s["st"] for s in feeds):
                 return ("pes lock-up: after a packet with more than 64 line units no frame is delivered any more, "
                         "although intact packets follow")
@@ -634,6 +667,9 @@ class C07(verif.Spec):
         must_head = exp[:max(0, j - 1)]
         if ref[:len(must_head)] != must_head:
             return "damaged stream: frames sent before the damage are not delivered as sent"
+        if must_tail and ref[-len(must_tail):] != must_tail and getattr(st, "damage_kind", "") == "full_frame":
+            return ("full frame: a frame that fills the 64 line buffer exactly is never delivered and the intact frame "
+                    "after it is lost too (line_address reports the overflow before it tests for a new frame)")
         if must_tail and ref[-len(must_tail):] != must_tail:
             if (st.kind == "pes" and getattr(st, "damage_kind", "") == "overflow"
                     and not any(f in ref for f in exp[j:])):
